@@ -54,17 +54,25 @@ CLAIMS["C10"] = dict(
     category="other",
     text="Only the data-race-freedom premises are decided: unbounded contract proofs that a worker's block of the multi-threaded router writes "
          "exactly its own slice of the receiver tables, reads only memory no block writes, and computes the same per-node function as the "
-         "sequential step; the block partition comes from C11. Interleavings themselves are outside contract-based verification.",
+         "sequential step; the block partition comes from C11. Kernel clause: the sequential application runs getter -> func -> setter exactly once per "
+         "position of the chosen order, in increasing position; the multi-threaded application processes every position of every breadth-first level "
+         "exactly once with a node-data slot < n_threads, level after level, small levels inline on slot 0, pool resized before any dispatch, node data "
+         "created before / freed after once per slot; apply_kernel picks the parallel path iff n_threads > 1. Interleavings themselves are outside "
+         "contract-based verification.",
     note="Unmechanised DRF composition lemma; pool synchronisation assumed (C11 undecided clauses); cache-less grids share one neighbour "
-         "buffer between threads (finding F7, reproduced natively: replay/findings/f7_nocache_parallel_race.cpp) and are not covered by the frame proof; kernels not covered.",
+         "buffer between threads (finding F7, reproduced natively: replay/findings/f7_nocache_parallel_race.cpp) and are not covered by the frame proof; kernel callbacks are opaque "
+         "functions that only record calls in ghost state (assumed to touch only their node's data).",
 )
 CLAIMS["C06"] = dict(
     category="other",
     text="Unbounded contract proofs that the donor table is the exact inverse of the receiver column for the single-direction router "
          "(sequential path, multi-threaded path with its rebuild loop, reset before either sweep) and that every donor entry of the "
-         "multiple-direction router points at one of its receivers; traversal-order clauses (permutation, receivers first, breadth-first levels) "
-         "are covered only where a listed group says so (bounded), otherwise undecided.",
-    note="Donor-row capacity is a stated precondition instance (counting argument). compute_donors / dfs / bfs groups are listed in the evidence when built.",
+         "multiple-direction router points at one of its receivers; order clauses, unbounded local lemmas: in the bottom-up depth-first order every "
+         "written entry is a popped node and a stacked node is its own receiver or a donor whose receiver is already written (hence after its receiver); "
+         "in the breadth-first order a node enters a level only when all its receivers lie in strictly earlier levels and levels are non-empty ranges. "
+         "`Permutation` (every node exactly once) is a counting statement: BOUNDED groups only (<= 4 nodes, labelled bounded).",
+    note="Donor-row capacity is a stated precondition instance (counting argument); donor-table contract instantiated on read in the order lemmas; "
+         "compute_dfs_indices_topdown only bounded.",
 )
 CLAIMS["C18"] = dict(
     category="other",
@@ -79,8 +87,10 @@ CLAIMS["C01"] = dict(
          "unmasked receivers and terminals themselves (C04/C05 groups); one iteration of the priority flood preserves, for an arbitrary node, "
          "'every reached non-base node has a reached, unmasked, strictly lower neighbour', the queue-element invariant and the flood-completeness "
          "bookkeeping; init_pflood establishes them; at exit they give 'no reached node has an unreached unmasked neighbour'. The composition (while "
-         "rule, strict descent => no cycle, paths end at base levels) is stated, not mechanised; spanning-tree re-routing is covered only by the "
-         "groups listed in the evidence.",
+         "rule, strict descent => no cycle, paths end at base levels) is stated, not mechanised. Spanning-tree resolver: the `basic` re-routing of a pit "
+         "and one tree edge of the `carve` re-routing (receiver chain reversed, a potential strictly decreases along the new receivers up to the pass node, "
+         "which drains into another basin: no cycle inside the basin) are unbounded contract proofs under the stated basin/tree contracts; the loops over "
+         "the tree and `the re-routed forest is rooted at base levels` are not decided.",
     note="priority_queue modelled as a bag (top = some element), queue capacities are model artefacts, IH instances at data-dependent queue slots, "
          "neighbour symmetry (C07) and nextafter(x,+inf) > x assumed.",
 )
@@ -103,7 +113,9 @@ CLAIMS["C09"] = dict(
     text="History independence is obtained per function: update_routes never has its argument in the write frame and runs the operators on the owned "
          "copy iff one edits elevation (unbounded); the priority flood's containers are fresh in every call (typestate group) and its whole-function "
          "contract holds for arbitrary previous container content; the neighbour cache never changes a result; routers' outputs are fully determined "
-         "for arbitrary previous table content (their contracts have no requires on outputs). Cached basin-graph object and operator objects are glue: undecided.",
+         "for arbitrary previous table content (their contracts have no requires on outputs); the flood's heap order is total on different nodes, so its "
+         "pop sequence does not depend on the iteration order of the unordered base-level set (finding F6, repaired in /repo); basin-graph scratch: "
+         "connect_basins / Kruskal / Boruvka set-up resets hold on arbitrary pre-state. Cached basin-graph object and operator objects are glue: undecided.",
     note="Bit-for-bit equality of all downstream state follows only where the functional contracts are unbounded; bounded elsewhere.",
 )
 CLAIMS["C19"] = dict(
@@ -154,14 +166,18 @@ CLAIMS["C16"] = dict(
 )
 CLAIMS["C15"] = dict(
     category="other",
-    text="Unbounded contract proofs of the pieces Kruskal's argument rests on: union-find (find returns the class representative and keeps every "
-         "class, link/merge unites exactly two classes, resize+clear gives singletons), the sort comparator is a strict weak order on pass "
+    text="Unbounded contract proofs of the pieces the minimum-spanning-tree argument rests on: union-find (find returns the class representative and "
+         "keeps every class, link/merge unites exactly two classes, resize+clear gives singletons), the sort comparator is a strict weak order on pass "
          "elevations, one Kruskal step takes an edge iff its end points are in different classes and then merges them, the per-call resets of "
-         "connect_basins / compute_tree_kruskal (root, edge list, edge-position table, tree, union-find), the lowest-pass update of one "
-         "neighbour visit, and the 'basic' re-routing of a pit. Minimality (Kruskal's theorem), spanning-ness, Boruvka and edge orientation are "
-         "NOT decided (no contract within reach states them without cardinalities / reachability).",
-    note="std::sort trusted (permutation of edge indices); vectors modelled with a symbolic capacity; order / basin-label / neighbour contracts "
-         "assumed on read; Boruvka, orient_edges and the carve re-routing are not under contract.",
+         "connect_basins / compute_tree_kruskal, the lowest-pass update of one neighbour visit; Boruvka: the whole set-up phase (degrees, prefix "
+         "pointers, every edge in the rows of both end points, degree lists) by sliced contracts and step lemmas of the main loop (selection of a "
+         "lightest live edge, append only between two different live super-nodes, rename, collapse, re-queue); orientation: one visited edge ends up "
+         "pointing away from the popped basin with link and pass swapped together, and the CSR loop bodies. Spanning / acyclic / minimum total weight / "
+         "Boruvka == Kruskal weight / `every tree edge points away from the root` for whole functions are BOUNDED checks of the extracted functions "
+         "(stated bounds, labelled bounded, never counted as proof); Kruskal's and Boruvka's theorems themselves are unmechanised.",
+    note="std::sort trusted (permutation of edge indices); vectors modelled with a symbolic capacity; order / basin-label / neighbour contracts and the "
+         "Boruvka row invariant assumed on read; the large-degree (> 16 incident edges) path of Boruvka is outside every bound. Finding F13 (Boruvka never "
+         "selected an edge of weight DBL_MAX) was repaired in /repo.",
 )
 CLAIMS["C14"] = dict(
     category="other",
